@@ -307,13 +307,14 @@ def check_concrete(repo, res):
     return n
 
 
-def check_builders(repo, res, names, shapes):
+def check_builders(repo, res, names, shapes, rename=None):
     """R-DERIV / R-CAO / R-REFRESH for the builders in `names` (None = all seven) at the given shapes.
     Every builder is activated twice on the same model object: once on a freshly constructed object and once
     more after the model definition changed (all symbols of the right-hand side, the rates and the
     state-change matrix replaced); both results must be the derivatives of the definition current at that
     activation - a builder that keeps anything from an earlier activation fails the second one."""
     n = 0
+    rn = (lambda r_: (rename or {}).get(r_, r_))
     for nS, nP, nE in shapes:
         sh = "(nS=%d,nP=%d,nE=%d)" % (nS, nP, nE)
         names_all = ["get_jacobian_eqn", "get_grad_eqn", "get_diff_jacobian_eqn", "get_grad_jacobian_eqn",
@@ -345,26 +346,26 @@ def check_builders(repo, res, names, shapes):
                 try:
                     fn, kind, out, me = w.run(name, me)
                 except A.Undecided as e:
-                    res.undecided(rule, repo.resolve_method(w.cls, name), tag, "outside the modelled subset: %s" % e)
+                    res.undecided(rn(rule), repo.resolve_method(w.cls, name), tag, "outside the modelled subset: %s" % e)
                     break
                 n += 1
                 if kind == "raise":
                     if str(out).startswith("AttributeError(Model."):
-                        res.violated("R-REFRESH", fn, tag, "%s reads %s without refreshing it in the same activation (stale or missing object)" % (name, out), node=fn.node)
+                        res.violated(rn("R-REFRESH"), fn, tag, "%s reads %s without refreshing it in the same activation (stale or missing object)" % (name, out), node=fn.node)
                     else:
-                        res.violated(rule, fn, tag, "%s raises %s" % (name, out), node=fn.node)
+                        res.violated(rn(rule), fn, tag, "%s raises %s" % (name, out), node=fn.node)
                     break
                 want = want_fn()
                 if not isinstance(out, SymArr):
-                    res.violated(rule, fn, tag, "%s returns %r" % (name, out), node=fn.node)
+                    res.violated(rn(rule), fn, tag, "%s returns %r" % (name, out), node=fn.node)
                     break
                 d = L.first_diff(SymArr(out.shape, out.flat), SymArr(want.shape, want.flat))
                 if second and d is not None:
-                    res.violated("R-REFRESH", fn, tag, "after the model definition changed, %s still returns derivatives of the earlier definition: %s" % (name, d), node=fn.node)
+                    res.violated(rn("R-REFRESH"), fn, tag, "after the model definition changed, %s still returns derivatives of the earlier definition: %s" % (name, d), node=fn.node)
                     break
-                res.check(d is None, rule, fn, tag, text, "%s: %s  (D[f|v] = formal derivative of f w.r.t. v)" % (text, d), node=fn.node)
+                res.check(d is None, rn(rule), fn, tag, text, "%s: %s  (D[f|v] = formal derivative of f w.r.t. v)" % (text, d), node=fn.node)
                 miss = [a_ for a_ in needs if a_ not in w.refreshed]
-                res.check(not miss, "R-REFRESH", fn, "refresh:" + tag, "%s rebuilds %s before using it" % (name, needs),
+                res.check(not miss, rn("R-REFRESH"), fn, "refresh:" + tag, "%s rebuilds %s before using it" % (name, needs),
                           "%s uses %s without rebuilding it in this activation" % (name, miss), node=fn.node)
     return n
 
